@@ -128,13 +128,19 @@ $(B)/sample: $(B)/worlds/sample.o $(CORE_OBJS) $(B)/libpixman.a
 	$(LINK)
 $(B)/cfg: $(B)/worlds/cfg.o $(CORE_OBJS) $(B)/libpixman.a
 	$(LINK)
+$(B)/worlds/glyph-16.o: sim/worlds/glyph.c $(B)/gen/pixman-version.h
+	@mkdir -p $(dir $@)
+	$(CC) $(OPT) $(COMMON) $(SIMSAN) $(VARDEF) -DSIM_GLYPH_HIGH=8 -DSIM_GLYPH_LOW=4 -Wall -Wno-unused-function -MMD -MP -c $< -o $@
+$(B)/worlds/glyph-64.o: sim/worlds/glyph.c $(B)/gen/pixman-version.h
+	@mkdir -p $(dir $@)
+	$(CC) $(OPT) $(COMMON) $(SIMSAN) $(VARDEF) -DSIM_GLYPH_HIGH=32 -DSIM_GLYPH_LOW=16 -Wall -Wno-unused-function -MMD -MP -c $< -o $@
 $(B)/glyph: $(B)/worlds/glyph.o $(CORE_OBJS) $(B)/libpixman.a
 	$(LINK)
 # the small-scope object is named first, so the archive's pixman-glyph.o is
 # never pulled in
-$(B)/glyph16: $(B)/worlds/glyph.o $(B)/pixman-small/pixman-glyph-16.o $(CORE_OBJS) $(B)/libpixman.a
+$(B)/glyph16: $(B)/worlds/glyph-16.o $(B)/pixman-small/pixman-glyph-16.o $(CORE_OBJS) $(B)/libpixman.a
 	$(LINK)
-$(B)/glyph64: $(B)/worlds/glyph.o $(B)/pixman-small/pixman-glyph-64.o $(CORE_OBJS) $(B)/libpixman.a
+$(B)/glyph64: $(B)/worlds/glyph-64.o $(B)/pixman-small/pixman-glyph-64.o $(CORE_OBJS) $(B)/libpixman.a
 	$(LINK)
 $(B)/thread: $(B)/worlds/thread.o $(B)/core/baton.o $(CORE_OBJS) $(B)/libpixman.a
 	$(LINK)
